@@ -300,6 +300,141 @@ fn expected_args(case: &Case, target: &str, cmd: &str) -> (Vec<String>, usize) {
     (v, sources)
 }
 
+fn install_case(env: &Env, case: &Case) {
+    let cfg = &case.config;
+    env.install_config(cfg);
+    for (t, c, d) in &case.defs {
+        if let Some(exe) = installed_file(cfg, t, c, d) {
+            env.install_command(&exe, true);
+        }
+    }
+    for (p, is_dir) in &case.decoys {
+        let abs = env.path(p);
+        if abs.exists() {
+            continue;
+        }
+        if *is_dir {
+            let _ = std::fs::create_dir_all(&abs);
+        } else {
+            env.install_command(p, true);
+        }
+    }
+    for (path, content) in argmap_disk(case) {
+        env.write_file(&path, serde_json::to_string(&content).unwrap().as_bytes());
+    }
+}
+
+fn selected_targets(case: &Case) -> Vec<String> {
+    let cfg = &case.config;
+    if case.cli_targets.is_empty() {
+        cfg.target_paths()
+    } else if case.deps {
+        let idx = crate::gen::index_of(cfg);
+        let adj = crate::model::dep_adj(cfg);
+        let roots: Vec<usize> = case.cli_targets.iter().map(|t| idx[t]).collect();
+        crate::model::closure(&adj, &roots).into_iter().map(|i| cfg.targets[i].path.clone()).collect()
+    } else {
+        case.cli_targets.clone()
+    }
+}
+
+/// In-process form: the plan `run` would execute, captured from the real `handle_run` right
+/// before execution (guarded hook `verif::run_plan`); every selected (command, target) must carry
+/// the documented working directory, executable and argument list. Nothing is started, so one
+/// case costs the files it writes.
+pub fn check_plan(case: &Case, w: usize) -> CheckResult {
+    let cfg = &case.config;
+    let env = Env::new_in(crate::scratch::fast_root(), w);
+    install_case(&env, case);
+    let (sequences, commands): (Vec<String>, Vec<String>) = match case.via_sequence {
+        1 => (vec!["pipeline".into()], vec![]),
+        2 => (vec!["pipeline".into()], case.commands.iter().skip(1).cloned().collect()),
+        _ => (vec![], case.commands.clone()),
+    };
+    let a = monorail::verif::RunArgs {
+        commands,
+        sequences,
+        targets: case.cli_targets.clone(),
+        args: case.cli_args.clone(),
+        argmaps: case.cli_argmaps.clone(),
+        include_deps: case.deps && !case.cli_targets.is_empty(),
+        fail_on_undefined: false,
+        use_base_argmaps: !case.no_base,
+    };
+    let rt = tokio::runtime::Builder::new_current_thread().enable_all().build().map_err(|e| Inconclusive(e.to_string()))?;
+    let got = rt.block_on(monorail::verif::run_plan(&env.config_path(), &a));
+    let doc: Value = match got {
+        Ok(s) => serde_json::from_str(&s).map_err(|e| Inconclusive(format!("plan is not JSON: {}", e)))?,
+        Err(e) => {
+            return viol_obs("c11.plan.rejected", "planning a run over valid inputs (configuration, command files, argmap files, arguments) failed".into(), json!({"error": e}));
+        }
+    };
+    let plan_cmds: Vec<String> = doc["commands"].as_array().map(|a| a.iter().filter_map(|c| c.as_str().map(String::from)).collect()).unwrap_or_default();
+    if plan_cmds != case.commands {
+        return viol_obs("c11.plan.commands", "the planned commands are not the requested ones in order".into(), json!({"want": case.commands, "got": plan_cmds}));
+    }
+    let selected = selected_targets(case);
+    let empty = vec![];
+    let ctgs = doc["plan"]["command_target_groups"].as_array().unwrap_or(&empty);
+    if ctgs.len() != plan_cmds.len() {
+        return viol("c11.plan.shape", format!("{} planned command entries for {} commands", ctgs.len(), plan_cmds.len()));
+    }
+    let root = env.repo.display().to_string();
+    let mut multi_source = false;
+    let mut custom = false;
+    for (ci, c) in plan_cmds.iter().enumerate() {
+        let mut seen: BTreeMap<String, &Value> = BTreeMap::new();
+        for g in ctgs[ci]["target_groups"].as_array().unwrap_or(&empty) {
+            for pt in g.as_array().unwrap_or(&empty) {
+                let t = pt["path"].as_str().unwrap_or("").to_string();
+                if seen.insert(t.clone(), pt).is_some() {
+                    return viol("c11.plan.duplicate", format!("({}, {}) is planned twice", c, t));
+                }
+            }
+        }
+        let want_set: std::collections::BTreeSet<&String> = selected.iter().collect();
+        let got_set: std::collections::BTreeSet<&String> = seen.keys().collect();
+        if want_set != got_set {
+            return viol_obs("c11.plan.targets", format!("command {}: the planned targets are not the selected ones", c), json!({"want": want_set, "got": got_set}));
+        }
+        for (t, c2, d) in case.defs.iter().filter(|(_, c2, _)| c2 == c) {
+            let Some(pt) = seen.get(t) else { continue };
+            let _ = c2;
+            let want_cwd = format!("{}/{}", root, t);
+            let got_cwd = pt["command_work_path"].as_str().unwrap_or("");
+            if got_cwd.trim_end_matches('/') != want_cwd.trim_end_matches('/') {
+                return viol_obs("c11.plan.cwd", format!("({}, {}): working directory is not the target's directory", c, t), json!({"want": want_cwd, "got": got_cwd}));
+            }
+            let (want_args, sources) = expected_args(case, t, c);
+            let got_args: Vec<String> = pt["command_args"].as_array().map(|a| a.iter().filter_map(|x| x.as_str().map(String::from)).collect()).unwrap_or_default();
+            if let Some(exe) = expected_exe(case, t, c, d) {
+                let want_exe = format!("{}/{}", root, exe);
+                let got_exe = pt["command_path"].as_str().unwrap_or("");
+                if std::path::Path::new(got_exe) != std::path::Path::new(&want_exe) {
+                    return viol_obs("c11.plan.resolution", format!("({}, {}): the planned executable is not the documented one", c, t), json!({"want": want_exe, "got": pt["command_path"], "definition": d}));
+                }
+                if got_args != want_args {
+                    return viol_obs("c11.plan.argv", format!("({}, {}): argument list differs from base ++ argmaps ++ args", c, t), json!({"want": want_args, "got": got_args}));
+                }
+                if sources >= 2 {
+                    multi_source = true;
+                }
+                if matches!(d, Def::Explicit(_) | Def::EmptyDef(_)) || cfg.target(t).unwrap().commands_path.is_some() || cfg.target(t).unwrap().argmaps_path.is_some() {
+                    custom = true;
+                }
+            }
+        }
+    }
+    Ok(CaseInfo::new(multi_source || custom)
+        .class_if(case.via_sequence != 0, "commands-through-a-sequence")
+        .class_if(multi_source, "multi-source-args")
+        .class_if(custom, "custom-dir-or-definition")
+        .class_if(!case.cli_args.is_empty(), "cli-args")
+        .class_if(case.deps && selected.len() > case.cli_targets.len(), "deps-pulled-in")
+        .class_if(case.no_base, "no-base")
+        .class_if(!case.cli_argmaps.is_empty(), "cli-argmaps"))
+}
+
 pub fn check(case: &Case, w: usize) -> CheckResult {
     let cfg = &case.config;
     let mut env = Env::new(w);
@@ -367,7 +502,12 @@ pub fn check(case: &Case, w: usize) -> CheckResult {
         return inconclusive("run timed out".into());
     }
     let Some(doc) = out.json() else {
-        return inconclusive(format!("run produced no JSON: {}", out.brief()));
+        if out.stderr_str().contains("Lock acquisition failed") {
+            return inconclusive(format!("run produced no JSON: {}", out.brief()));
+        }
+        // configuration, command files, argmap files and arguments are all valid: a run that ends
+        // without a result has started nothing with the documented arguments
+        return viol_obs("c11.run.rejected", "a run over valid inputs (configuration, command files, argmap files, arguments) ended without a result".into(), out.brief());
     };
     let run = bb::parse_run(&doc).map_err(|e| Violation::new("c11.output", e))?;
     if run.failed {
@@ -468,13 +608,15 @@ newlines, unicode, empty strings. oracle over helper start records: cwd == targe
 non-trivial = >=2 argument sources for one task, or a custom directory / explicit definition; distinct by SHA-256"
         .to_string();
     ctx.assumptions = vec!["--args values never start with '-' (clap would parse them as flags)".into(), "no two files share a stem in one command directory".into()];
+    let np = ctx.n(15000, 300_000);
+    ctx.drive("inproc-plan", strategy, np, check_plan);
     let n = ctx.n(800, 12000);
     ctx.drive("run", strategy, n, check);
 }
 
 pub fn replay(ctx: &Ctx, label: &str, case: Value) -> Result<(), String> {
     let c: Case = serde_json::from_value(case).map_err(|e| e.to_string())?;
-    let r = check(&c, 0);
+    let r = if label.contains("inproc") { check_plan(&c, 0) } else { check(&c, 0) };
     ctx.replay_one(label, &c, r);
     Ok(())
 }
